@@ -14,7 +14,8 @@ U64 = (1 << 64) - 1
 # Darwin's interfaces give several of them a meaning (AT_FDCWD = -2, an invalid descriptor -1, MAP_FAILED, lengths of
 # -1 ...).  A decoder that starts naming one of them takes a branch no random 64-bit word ever reaches.
 SENTINEL_WORDS = tuple((-k) & 0xffffffff for k in range(1, 9)) + tuple((-k) & ((1 << 64) - 1) for k in range(1, 9)) + \
-    tuple(((-k) & 0xffffffff) | (1 << 32) for k in (1, 2, 3))
+    tuple(((-k) & 0xffffffff) | (1 << 32) for k in (1, 2, 3)) + \
+    ((1 << 61) - 1, 1 << 61, 2 * ((1 << 61) - 1) + 1, 3 * ((1 << 61) - 1) + 64)     # == 0, 1, 1, 64 modulo Python's hash modulus
 
 
 def rng_word(rng):
